@@ -112,7 +112,7 @@ func (f *impFn) assigned(nodes ...ast.Node) []string {
 				}
 				if se, ok := s.Fun.(*ast.SelectorExpr); ok {
 					if id, ok := se.X.(*ast.Ident); ok {
-						if t := f.lookup(id.Name); t != nil && (t.k == "elem" || (t.k == "bigint" && (se.Sel.Name == "Neg" || se.Sel.Name == "SetBytes" || se.Sel.Name == "Mod"))) {
+						if t := f.lookup(id.Name); t != nil && (t.k == "elem" || (t.k == "bigint" && (se.Sel.Name == "Neg" || se.Sel.Name == "SetBytes" || se.Sel.Name == "Mod" || se.Sel.Name == "SetString"))) {
 							set[id.Name] = true
 						}
 					}
@@ -295,6 +295,28 @@ func (f *impFn) simple(s ast.Stmt, prev ast.Stmt, c *ictx) []string {
 			p.die(s, "assignment operator %s", v.Tok)
 		}
 		if len(v.Lhs) == 2 && len(v.Rhs) == 1 {
+			if call, ok := v.Rhs[0].(*ast.CallExpr); ok && p.tg.mode == "h2f" && len(call.Args) == 2 && v.Tok == token.DEFINE {
+				// `_, ok := x.SetString(s, 0)` on a scratch big.Int: PARAMETER bigSetString (value, ok); x is unspecified when !ok
+				if se, isSel := call.Fun.(*ast.SelectorExpr); isSel && se.Sel.Name == "SetString" {
+					if id, isId := se.X.(*ast.Ident); isId && f.lookup(id.Name) != nil && f.lookup(id.Name).k == "bigint" {
+						l0, ok0 := v.Lhs[0].(*ast.Ident)
+						l1, ok1 := v.Lhs[1].(*ast.Ident)
+						if !f.isFresh(id.Name) || f.bigDead[id.Name] {
+							p.die(s, "%s.SetString(…) on a big.Int that is not a live scratch object", id.Name)
+						}
+						if !ok0 || !ok1 || l0.Name != "_" || l1.Name == "_" || exprText(call.Args[1]) != "0" {
+							p.die(s, "SetString form (only `_, ok := x.SetString(s, 0)`)")
+						}
+						ss, st := f.expr(call.Args[0], tyString, c)
+						if st.k != "string" {
+							p.die(s, "SetString argument type")
+						}
+						f.declare(s, l1.Name, tyBool)
+						delete(f.bigUninit, id.Name)
+						return []string{"let (" + lname(id.Name) + ", " + lname(l1.Name) + ") := bigSetString " + parenImp(ss)}
+					}
+				}
+			}
 			names := func(ts ...*ity) []string {
 				var ns []string
 				for i, l := range v.Lhs {
@@ -389,6 +411,10 @@ func (f *impFn) simple(s ast.Stmt, prev ast.Stmt, c *ictx) []string {
 				if f.bigUninit == nil {
 					f.bigUninit = map[string]bool{}
 				}
+				if f.bigScratch == nil {
+					f.bigScratch = map[string]bool{}
+				}
+				f.bigScratch[id.Name] = true
 				f.bigFresh[id.Name], f.bigUninit[id.Name] = true, true
 				return []string{"let " + lname(id.Name) + " : Int := 0  -- pool.BigInt.Get(): a fresh scratch object (contents unspecified: checked to be set before it is read, not to escape, not to be used after Put)"}
 			}
@@ -486,6 +512,25 @@ func (f *impFn) simple(s ast.Stmt, prev ast.Stmt, c *ictx) []string {
 						val = "inv " + arg(call.Args[0])
 					case se.Sel.Name == "SetZero" && len(call.Args) == 0 && p.tg.mode == "h2f":
 						val = "zeroF"
+					case se.Sel.Name == "SetUint64" && len(call.Args) == 1 && p.tg.mode == "h2f":
+						// PARAMETER setUint64F
+						us, ut := f.expr(call.Args[0], tyU64, c)
+						if ut.k != "uint64" {
+							p.die(s, "SetUint64 argument type %v", ut)
+						}
+						val = "setUint64F " + parenImp(us)
+					case se.Sel.Name == "Neg" && len(call.Args) == 1 && p.tg.mode == "h2f":
+						val = "negF " + arg(call.Args[0]) // PARAMETER negF
+					case p.tg.mode == "h2f" && p.elemMeth[se.Sel.Name] != nil && len(call.Args) == len(p.elemMeth[se.Sel.Name].params):
+						// a method `func (z *Element) M(…) *Element` of this target translated before
+						_, margs := h2fParams(se.Sel.Name)
+						val = se.Sel.Name + margs + " " + lname(id.Name)
+						for i, a := range call.Args {
+							if p.elemMeth[se.Sel.Name].params[i].k != "bigint" {
+								p.die(a, "argument %d of %s", i, se.Sel.Name)
+							}
+							val += " " + parenImp(f.bigArg(a, c))
+						}
 					case se.Sel.Name == "setBigInt" && len(call.Args) == 1 && p.tg.mode == "h2f":
 						// the limb-level primitive (assumes 0 ≤ v < q): PARAMETER setBigIntF
 						if p.funcs["setBigInt"] == nil || p.funcs["setBigInt"].Recv == nil {
@@ -510,7 +555,7 @@ func (f *impFn) simple(s ast.Stmt, prev ast.Stmt, c *ictx) []string {
 						return []string{"let " + lname(id.Name) + " := -" + parenImp(as)}
 					}
 					if (se.Sel.Name == "SetBytes" || se.Sel.Name == "Mod") && p.tg.mode == "h2f" {
-						if !f.bigFresh[id.Name] {
+						if !f.isFresh(id.Name) {
 							p.die(s, "%s.%s(…) on a big.Int that is not known to be a fresh object (could be the caller's)", id.Name, se.Sel.Name)
 						}
 						if f.bigDead[id.Name] {
@@ -582,7 +627,7 @@ func (f *impFn) simple(s ast.Stmt, prev ast.Stmt, c *ictx) []string {
 		}
 		if exprText(call.Fun) == "pool.BigInt.Put" && len(call.Args) == 1 && p.tg.mode == "h2f" {
 			id, ok := call.Args[0].(*ast.Ident)
-			if !ok || !f.bigFresh[id.Name] {
+			if !ok || !f.isFresh(id.Name) {
 				p.die(s, "pool.BigInt.Put of something that is not a scratch object obtained by Get in this function")
 			}
 			if f.bigDead == nil {
@@ -787,6 +832,10 @@ func (f *impFn) seq(list []ast.Stmt, k *kont, c *ictx, ind string, prev ast.Stmt
 		}
 		var vals []string
 		for i, r := range v.Results {
+			if id, ok := r.(*ast.Ident); ok && f.results[i].k == "ptr" && id.Name == f.recv && f.recvTy.eq(f.results[i].elem) {
+				vals = append(vals, "some "+lname(f.recv)) // the returned pointer is the receiver
+				continue
+			}
 			es, et := f.expr(r, f.results[i], c)
 			if !et.eq(f.results[i]) {
 				p.die(r, "return value %d: %v expected, %v given", i, f.results[i], et)
